@@ -141,7 +141,8 @@ func opKey(op chanOp) string {
 	return fmt.Sprintf("%s/%s[%s]", fname(op.Fn), k, strings.Join(parts, "|"))
 }
 
-func runC17(r *Report) {
+// c17Inventory: rule R1 over every channel operation of packages tor, peer and protocol.
+func c17Inventory(r *Report) *lifetimeTable {
 	p := r.P
 	lt := lifetimeOf(r, "R1")
 	nOps := 0
@@ -162,6 +163,11 @@ func runC17(r *Report) {
 	}
 	r.Sentinel("R1", nOps, 70)
 	r.Sentinel("R1.reply-sends", nReplySends, 15)
+	return lt
+}
+
+func runC17(r *Report) {
+	lt := c17Inventory(r)
 	c17Owners(r, lt)
 	c17Loops(r, lt)
 	c17Deletion(r)
